@@ -2,6 +2,7 @@ package main
 
 import (
 	"go/token"
+	"go/types"
 
 	"golang.org/x/tools/go/ssa"
 )
@@ -75,6 +76,17 @@ func (d *dbm) flatten(v ssa.Value, depth int) ([]atom, int64) {
 				}
 				if n, ok := d.p.c.constLenOf(call.Call.Args[0]); ok {
 					return nil, n
+				}
+				// len(s[a:]) = len(s) - a
+				if sl, ok := call.Call.Args[0].(*ssa.Slice); ok && sl.High == nil {
+					if _, isStr := sl.X.Type().Underlying().(*types.Pointer); !isStr {
+						if sl.Low == nil {
+							return []atom{{lenOf: sl.X}}, 0
+						}
+						if a, isK := constInt(sl.Low); isK {
+							return []atom{{lenOf: sl.X}}, -a
+						}
+					}
 				}
 				return []atom{{lenOf: call.Call.Args[0]}}, 0
 			}
@@ -220,24 +232,33 @@ type boundSet struct {
 
 // phiStep: phi = phi(init, phi + step) → (init, step)
 func phiStep(phi *ssa.Phi) (init ssa.Value, step int64, ok bool) {
-	if len(phi.Edges) != 2 {
+	// exactly one edge that is not phi±k (the initial value); all others the same phi + step
+	found := false
+	for _, e := range phi.Edges {
+		bo, isB := stripConv(e).(*ssa.BinOp)
+		if isB && (bo.Op == token.ADD || bo.Op == token.SUB) && bo.X == ssa.Value(phi) {
+			k, isK := constInt(bo.Y)
+			if !isK {
+				return nil, 0, false
+			}
+			if bo.Op == token.SUB {
+				k = -k
+			}
+			if found && k != step {
+				return nil, 0, false
+			}
+			step, found = k, true
+			continue
+		}
+		if init != nil && init != e {
+			return nil, 0, false
+		}
+		init = e
+	}
+	if !found || init == nil {
 		return nil, 0, false
 	}
-	for i, e := range phi.Edges {
-		bo, isB := stripConv(e).(*ssa.BinOp)
-		if !isB || (bo.Op != token.ADD && bo.Op != token.SUB) || bo.X != ssa.Value(phi) {
-			continue
-		}
-		k, isK := constInt(bo.Y)
-		if !isK {
-			continue
-		}
-		if bo.Op == token.SUB {
-			k = -k
-		}
-		return phi.Edges[1-i], k, true
-	}
-	return nil, 0, false
+	return init, step, true
 }
 
 // bounds returns facts about t: t <= alt + k (upper) or t >= alt + k (lower).
